@@ -89,6 +89,8 @@ def build(p):
             j = job_of(res)
             E.emit("CancelFnCall", f=j, b=s.ident_val(res))
             E.upoint()
+            if p.get("cancel_dur"):
+                E.vsleep(p["cancel_dur"])       # a cancel function that takes time (a remote call)
             if cmode == "raise":
                 E.emit("CancelFnRet", f=j, a=2)
                 raise RuntimeError("cancel fn failed")
